@@ -418,15 +418,19 @@ def mcRead (g : G) (dl : Option (List Int)) (what : String) : String :=
     | _ => "bad-read"
 
 /-- the state of a `MarkovChain` object: the chain, the current `state_values`, and the labels its
-    `digraph` was built with (`none` = `self._digraph` not built yet).  The code builds the digraph at
-    the first graph-theoretic read with the `state_values` of that moment and never updates it. -/
+    `digraph` carries (`none` = `self._digraph` not built yet).  The code builds the digraph at the
+    first graph-theoretic read with the `state_values` of that moment; the `state_values` setter
+    relabels an already built digraph (`self._digraph.node_labels = self._state_values`). -/
 structure MCState where
   g : G
   values : Option (List Int)
   digraph : Option (Option (List Int))
 
 def mcStep (s : MCState) : Step → MCState × Option String
-  | .setLabels L => ({ s with values := L }, none)
+  | .setLabels L =>
+    ({ s with values := L, digraph := match s.digraph with
+                                      | some _ => some L
+                                      | none => none }, none)
   | .read w =>
     let dl := match s.digraph with
       | some dl => dl
